@@ -584,7 +584,7 @@ func (x *Exec) chanSend(ch *ChanV, v Value) {
 	sel := &selState{}
 	sg := &sudog{g: x.cur, val: v, sel: sel, isSend: true}
 	ch.sendq = append(ch.sendq, sg)
-	x.block(fmt.Sprintf("send on chan#%d", ch.id), func() bool { return sel.fired })
+	x.block("send on "+chanDesc(ch), func() bool { return sel.fired })
 	if sg.closedPanic {
 		x.goPanic("send on closed channel")
 	}
@@ -606,7 +606,7 @@ func (x *Exec) chanRecv(ch *ChanV) (Value, bool) {
 	sel := &selState{}
 	sg := &sudog{g: x.cur, sel: sel}
 	ch.recvq = append(ch.recvq, sg)
-	x.block(fmt.Sprintf("receive from chan#%d", ch.id), func() bool { return sel.fired })
+	x.block("receive from "+chanDesc(ch), func() bool { return sel.fired })
 	return sg.val, sg.ok
 }
 
@@ -677,6 +677,10 @@ func (x *Exec) selectOp(fr *frame, instr *ssa.Select) Value {
 			x.doSend(c.ch, c.val)
 		} else {
 			recvVal, recvOk = x.doRecv(c.ch)
+			if c.ch.ticker {
+				// time passes: everybody else gets a chance to run
+				x.block("tick", func() bool { return true })
+			}
 		}
 	} else if instr.Blocking {
 		sel := &selState{}
@@ -722,4 +726,12 @@ func (x *Exec) selectOp(fr *frame, instr *ssa.Select) Value {
 		}
 	}
 	return r
+}
+
+func chanDesc(ch *ChanV) string {
+	t := "?"
+	if ch.et != nil {
+		t = ch.et.String()
+	}
+	return fmt.Sprintf("chan %s (cap %d)", t, ch.cap)
 }
